@@ -222,9 +222,15 @@ class C07(Prop):
         # tiny uncertainties: a large part of the source space has exactly zero likelihood
         data = {'PPolarity': {'Stations': st, 'Measured': np.matrix(np.sign(a.dot(mtrue))).T, 'Error': np.matrix(1e-4 * np.ones((n, 1)))}}
         a_pol, err_pol, ipp = inv.polarity_matrix(data)
+        # amplitude ratios with different fractional errors on numerator and denominator
+        asv = np.asarray(inv.station_angles(st, 'SH'))
+        x_, y_ = a.dot(mtrue), asv.dot(mtrue)
+        data['P/SHAmplitudeRatio'] = {'Stations': st, 'Measured': np.matrix(np.vstack([np.abs(x_), np.abs(y_)]).T),
+                                      'Error': np.matrix(np.vstack([0.4 * np.abs(x_), 0.15 * np.abs(y_)]).T)}
+        a1, a2, ratio, pe1, pe2 = inv.amplitude_ratio_matrix(data)
         kw = dict(learning_length=40, chain_length=400, acceptance_rate_window=20, initial_sample='grid', number_samples=2000,
                   min_number_initialisation_samples=2000, dc=dc)
-        task = inv.McMCForwardTask(kw, a_pol, err_pol, False, False, False, False, False, False, False, ipp, normalise=True, convert=False)
+        task = inv.McMCForwardTask(kw, a_pol, err_pol, a1, a2, ratio, pe1, pe2, False, False, ipp, normalise=True, convert=False)
         counts = {'chain': 0, 'zero': 0}
         orig = inv.ForwardTask.__call__
 
@@ -244,9 +250,17 @@ class C07(Prop):
             out = task()['algorithm_output_data']
         finally:
             inv.ForwardTask.__call__ = orig
+        # every chain entry carries the likelihood of exactly that source: recompute it with the single-event forward task
+        M = np.asarray(out['moment_tensor_space'], dtype=float)
+        uniq = M[:, :: max(1, M.shape[1] // 25)]
+        ref = orig(inv.ForwardTask(uniq, a_pol, err_pol, a1, a2, ratio, pe1, pe2, False, False, False, ipp, return_zero=True))
+        ref = np.asarray(ref['ln_pdf']._ln_pdf, dtype=float).flatten()
+        got = np.asarray(out['ln_pdf'], dtype=float).flatten()[:: max(1, M.shape[1] // 25)]
+        # normalised output: compare differences between entries
+        dev = float(np.max(np.abs((got - got[0]) - (ref - ref[0])))) if len(got) else 0.0
         return {'evaluated_after_learning': counts['chain'], 'zero_likelihood_proposals': counts['zero'],
                 'reported_tried': int(out['total_number_samples']), 'entries': int(np.asarray(out['moment_tensor_space']).shape[1]),
-                'accepted': int(out['accepted'])}
+                'accepted': int(out['accepted']), 'entry_likelihood_dev': dev}
 
     def extra(self, rng, tier):
         runs = [(True, 3000, 11), (False, 4000, 12)] if tier == 'quick' else [(True, 20000, 11), (False, 40000, 12), (False, 40000, 13)]
@@ -261,6 +275,10 @@ class C07(Prop):
                                      'chain driver of the front end: %d proposals were evaluated after the learning period (%d of them with zero '
                                      'likelihood) but the chain reports %d tried proposals and holds %d entries' %
                                      (d['evaluated_after_learning'], d['zero_likelihood_proposals'], d['reported_tried'], d['entries']), key='driver-count'))
+            if d['entry_likelihood_dev'] > 1e-6:
+                fails.append(Failure('property', {'kind': 'driver', 'dc': dc, 'seed': seed},
+                                     'chain driver of the front end: the log-likelihoods attached to the chain entries differ from those of the '
+                                     'single-event forward task on the same sources by up to %r' % d['entry_likelihood_dev'], key='entry-likelihood'))
         for dc, n, seed in runs:
             z, rate, ess = self._posterior_run(dc, n, seed)
             cov['posterior_runs'].append({'dc': dc, 'chain_length': n, 'seed': seed, 'z': z, 'acceptance_rate': rate, 'reference_ess': ess})
